@@ -8,7 +8,7 @@ KNOBS = [dict(max_rows_per_file=f, max_rows_per_group=g, storage_version=v)
 
 
 def run(prop, tier, replay):
-    return T.run(prop, tier, FAMILIES, {"ScanEqualsModel"}, knob_list=KNOBS,
+    return T.run(prop, tier, FAMILIES, {"ScanEqualsModel"}, replay=replay, knob_list=KNOBS,
                  assumptions=["rows are (key, nullable int32) pairs; batches of 1-2 rows; file size limit 1 / 2 / unlimited rows, group size 1 / 1024, "
                               "storage versions legacy / 2.0 / 2.1 are configuration knobs cycled over the generated histories",
                               "per-type value fidelity over the Arrow type zoo is C25 (not applicable to this technique)"])
